@@ -31,12 +31,12 @@ def run(chk):
             lines += [l for l in open(os.path.join(corpus, f)).read().split("\n") if l.strip() and not l.startswith(";")]
         if lines:
             stats_all.append(vcheck.corr_pass(chk, "bdd", lines, "bdd-ops(corpus)"))
-    plans = [(4, 14, 1500), (6, 18, 1500)] if quick else [(4, 10, 40000), (5, 16, 40000), (6, 22, 40000), (7, 26, 10000)]
+    plans = [(4, 14, 8000), (6, 18, 8000)] if quick else [(4, 10, 40000), (5, 16, 40000), (6, 22, 40000), (7, 26, 10000)]
     for k, (max_atoms, steps, count) in enumerate(plans):
         lines = chk.gen("bdd", chk.seed * 1000 + k, count, max_atoms, steps)
         stats_all.append(vcheck.corr_pass(chk, "bdd", lines, f"bdd-ops(atoms<={max_atoms},steps<={steps})", nontrivial=nontrivial))
     # the type-vector layer: SemTypeOps on scalar types (per-tag merge + literal-set subtypes) vs the port the C06Sem theorems are about
-    for k, (steps, count) in enumerate([(12, 2500)] if quick else [(8, 40000), (16, 40000), (30, 20000)]):
+    for k, (steps, count) in enumerate([(12, 20000)] if quick else [(8, 40000), (16, 40000), (30, 20000)]):
         lines = chk.gen("semops", chk.seed * 1000 + 500 + k, count, steps)
         stats_all.append(vcheck.corr_pass(chk, "semops", lines, f"sem-ops(steps<={steps})", nontrivial=lambda r, i: "only" in i or "except" in i))
     if not pok:
